@@ -108,6 +108,7 @@ class ReqC07Part(Part):
         return x.split(" | ")[0] == y.split(" | ")[0]
 
     sizes = dict(quick=(60, [30, 80, 200, 400]), thorough=(500, [50, 200, 600, 2000]))
+    maxn = 20000
 
     def gen_items(self, rng, m):
         style = rng.choice(["random", "random", "sorted", "reversed", "constant", "dups", "narrow"])
@@ -188,8 +189,12 @@ class ReqC07Part(Part):
                     done += m
                     if rng.random() < 0.05:
                         h.append("upd %d nan" % s)
-                elif r < 0.82 and len(live) > 1:
-                    t = rng.choice([x for x in live if x != s])
+                elif r < 0.82 and len(live) > 1 and len(truth[s]) < self.maxn:
+                    # (merge trees grow like Fibonacci numbers: only operands that keep n below maxn)
+                    cands = [x for x in live if x != s and len(truth[s]) + len(truth[x]) <= self.maxn]
+                    if not cands:
+                        continue
+                    t = rng.choice(cands)
                     h.append("%s %d %d" % (rng.choice(["merge", "merge", "mergemv"]), s, t))
                     truth[s] = truth[s] + truth[t]
                     done += 1
@@ -452,13 +457,16 @@ class ReqC07Part(Part):
 PART = ReqC07Part()
 
 CLAIM_TEXT = ("REQ: kernel-checked theorems over ALL histories of new/update/merge/copy/query operations on any number of live "
-              "sketches, every k, both accuracy modes and every coin sequence, about an executable Lean model of req_compactor + req_sketch "
-              "(n exact; min/max exact; iterator yields num_retained pairs with weights 2^lg_weight summing to n for every NON-EMPTY sketch; "
-              "num_retained and max_nom_size bookkeeping exact and retained < max_nom_size after every operation given a capacity-monotone "
-              "section schedule; all levels above 0 sorted; direct get_rank equals the sorted view's rank; exact while one level), "
-              "tied to the real headers by a differential check with harness-supplied coins and by the property oracle on every "
-              "implementation trace. The iterator statement is FALSE for an empty sketch as coded (begin() != end()): "
-              "witness theorem + replay + proposed fix.")
+              "sketches, every k, both accuracy modes and every coin sequence, about an executable Lean model of req_compactor + req_sketch: "
+              "n exact and min/max exact w.r.t. the specification `inputOf` (items fed through updates, merges, copies); the code never "
+              "throws 'compaction range error'; the iterator yields exactly num_retained pairs with weights 2^lg_weight summing to n for every "
+              "NON-EMPTY sketch (and fails exactly for empty ones); num_retained / max_nom_size bookkeeping exact, no empty compactor in a "
+              "non-empty sketch; num_retained < max_nom_size after every operation (non-lazy compression; capacity-monotone section "
+              "schedule = hypothesis SecOK, checked by execution for the float code); all levels above 0 sorted, lg_weight = level; direct "
+              "get_rank = the sorted view's rank = weight below, view total = n; while one level the sorted view is the ascending input with "
+              "unit weights. Tied to the real headers by a differential check with harness-supplied coins and by the property oracle on "
+              "every implementation trace. weight_conserved is FALSE for an empty sketch as coded (begin() != end()) and get_quantile(NaN) "
+              "is answered: witness theorem / replay / proposed fixes, listed as open known findings.")
 
 
 class C07Req(Spec):
